@@ -303,7 +303,16 @@ def check_history(line, real, want):
                             fails.append({"oracle": "a target that failed in the previous run was not retried", "step": i, "cmd": " ".join(t), "target": n, "trace": trace})
                 failed_in_prev = {n: True for n in failed_now}
             # ---- C01 / C03 freshness
-            if "fresh" in want and rc == 0:
+            tol_fail = False
+            for n in tr.closure(ts):
+                rl = tr.rule_for(n)
+                if rl and n not in tr.scripts and tr.scripts[rl].get("tol") and any(tr.fresh(d, (n,)) == "FAIL" for d in tr.scripts[rl]["deps"]):
+                    # a script that shrugs off the failure of its redo-ifchange: what lies below it is
+                    # (rightly) not brought up to date, by a from-scratch build either
+                    tol_fail = True
+            if "fresh" in want and rc == 0 and tol_fail:
+                counted["fresh_skipped"] += len(tr.closure(ts))
+            if "fresh" in want and rc == 0 and not tol_fail:
                 for n in tr.closure(ts):
                     if n in tr.scripts:
                         continue
